@@ -1416,6 +1416,7 @@ class Rig:
         self.console_path = console_path
         self.pin_logging = pin_logging
         self._tbl: dict = {}
+        self.configured = None     # the trusted list this instance was configured with, when it must not be read off the instance
 
         def inner(environ, start_response):
             self.inner_calls += 1
@@ -1517,12 +1518,13 @@ class Rig:
     def model_line(self, args, path, host, cookie, count, evalex) -> str:
         frames = ",".join(str(k) for k in (self.frames_before if self.frames_before is not None else [FID])) or "_"
         cfg = (f"{int(evalex)} {ostr(self.console_path)} {cps(self.app.secret)} {frames} "
-               f"{cps(PIN) if self.pin_on else '~'} {cps(self.hash)} {int(self.pin_logging)} {olist(self.app.trusted_hosts)}")
+               f"{cps(PIN) if self.pin_on else '~'} {cps(self.hash)} {int(self.pin_logging)} "
+               f"{olist(self.configured if self.configured is not None else self.app.trusted_hosts)}")
         a = "|".join(f"{cps(k)}={cps(v)}" for k, v in args) if args else "_"
-        tkey = (host, tuple(self.app.trusted_hosts))
+        tkey = (host, tuple(self.app.trusted_hosts), tuple(self.configured or ()))
         tbl = self._tbl.get(tkey)
         if tbl is None:
-            tbl = self._tbl[tkey] = idna_table(idna_keys(host, self.app.trusted_hosts))
+            tbl = self._tbl[tkey] = idna_table(idna_keys(host, list(self.app.trusted_hosts) + list(self.configured or [])))
         return f"run {cfg} {a} {cps(path)} {ostr(host)} {ostr(cookie)} {NOW} {count} {tbl}"
 
 
@@ -1957,6 +1959,74 @@ def run(chk: Check, consts: dict | None) -> None:
         if not keys or 0 in keys or any(k != id(v) or not isinstance(k, int) or k <= 0 for k, v in tb_app.frames.items()):
             chk.fail("frame-ids", "a traceback stored a frame under a key that is not id(frame) > 0", {"kind": "frames", "keys": keys[:10]})
         chk.count("traceback frames registered", len(keys))
+
+        # instance isolation: trusted_hosts, the failure counter, the frames table and the secret are per DebuggedApplication
+        # instance (all created in __init__).  Configuring or using one instance must not open another one.
+        pristine = list(consts["trusted"]) if consts else [".localhost", "127.0.0.1"]
+        ADDED = ["dev.example.com", "sub.evil.test", "10.9.8.7", "other.example.org"]
+        for how in ("append", "extend", "iadd", "insert", "assign"):
+            rb = Rig(wd, True, False)            # created before a is configured
+            ra = Rig(wd, True, False)
+            if how == "append":
+                for h_ in ADDED:
+                    ra.app.trusted_hosts.append(h_)
+            elif how == "extend":
+                ra.app.trusted_hosts.extend(ADDED[:1] + [".evil.test"] + ADDED[2:])
+            elif how == "iadd":
+                ra.app.trusted_hosts += ADDED[:1] + [".evil.test"] + ADDED[2:]
+            elif how == "insert":
+                for h_ in ADDED:
+                    ra.app.trusted_hosts.insert(0, h_)
+            else:
+                ra.app.trusted_hosts = pristine + ADDED
+            rc = Rig(wd, True, False)            # created after
+            rigs[("iso", "a")], rigs[("iso", "b")], rigs[("iso", "c")] = ra, rb, rc
+            for who, rg in (("created-before", rb), ("created-after", rc)):
+                rg.configured = list(pristine)
+                if list(rg.app.trusted_hosts) != pristine:
+                    chk.fail("instance-isolation:trusted_hosts", f"trusted_hosts of an untouched instance ({who}) is {rg.app.trusted_hosts!r} after "
+                             f"another instance was configured by {how}", {"kind": "isolation", "how": how, "instance": who, "added": ADDED})
+                for label, base_args, path in commands(rg.app.secret):
+                    for host in ADDED + ["dev.example.com:5000", "localhost"]:
+                        args = list(base_args) + [("frm", str(FID)), ("s", rg.app.secret)]
+                        rg.reset(0)
+                        obs, c1, ms, det = with_timeout(rg.request, 10, args, path, host, None)
+                        inp = {"kind": "isolation", "how": how, "instance": who, "command": label, "host": host, "observed": obs,
+                               "configured": pristine, "other_instance_added": ADDED}
+                        if host != "localhost" and (obs.startswith(("eval", "console", "pin:", "printpin")) or det["pin_logged"] or det["frame0"]):
+                            chk.fail("instance-isolation:trusted_hosts", f"{label} answered Host {host!r} on an instance whose own trusted list is "
+                                     f"{pristine!r}: the host was only added to another instance ({how})", inp)
+                        add(rg.model_line(args, path, host, None, 0, True),
+                            f"{obs} c={c1} s={'-' if ms is None else ms} f0={int(det['frame0'])}", "isolation")
+                        chk.case(("isolation", how, who, label, host), nontrivial=True)
+            # the configured instance itself does accept what it was given (the stage is not vacuous)
+            ra.reset(0)
+            if not with_timeout(ra.request, 10, [], "/console", "dev.example.com", None)[0].startswith("console"):
+                chk.broken("correspondence", "instance isolation stage", f"the instance configured by {how} does not accept the added host")
+            # counter, frames, secret
+            ra.reset(0)
+            for _ in range(12):
+                with_timeout(ra.request, 10, [("__debugger__", "yes"), ("cmd", "pinauth"), ("pin", "0"), ("s", ra.app.secret)], "/", "localhost", None)
+            with_timeout(ra.request, 10, [], "/console", "localhost", None)
+            for who, rg in (("created-before", rb), ("created-after", rc)):
+                rg.app.frames.clear()
+                inp = {"kind": "isolation", "instance": who}
+                if rg.app._failed_pin_auth.value != 0 or rg.app._failed_pin_auth is ra.app._failed_pin_auth:
+                    chk.fail("instance-isolation:counter", "failed PIN attempts on one instance count on another", inp)
+                if 0 in rg.app.frames or rg.app.frames is ra.app.frames:
+                    chk.fail("instance-isolation:frames", "the console frame of one instance exists on another", inp)
+                if rg.app.secret == ra.app.secret:
+                    chk.fail("instance-isolation:secret", "two instances share the secret", inp)
+                o1 = with_timeout(rg.request, 10, [("__debugger__", "yes"), ("cmd", "1+1"), ("frm", "0"), ("s", rg.app.secret)], "/", "localhost", None)[0]
+                rg.app.frames[FID] = rg.spy     # a known frame, the other instance's secret
+                o2 = with_timeout(rg.request, 10, [("__debugger__", "yes"), ("cmd", "1+1"), ("frm", str(FID)), ("s", ra.app.secret)], "/", "localhost", None)[0]
+                if o1 == "eval":
+                    chk.fail("instance-isolation:frames", "evaluation in a console frame that was created on another instance", inp)
+                if o2 == "eval":
+                    chk.fail("instance-isolation:secret", "the secret of one instance opens another", inp)
+            for k_ in ("a", "b", "c"):
+                del rigs[("iso", k_)]
+        chk.count("instance isolation stage (5 ways of configuring another instance)", 5)
 
         # console frame (frames[0]) across requests: every sequence up to length 4 over
         # {console page trusted / untrusted, eval in frame 0 trusted / untrusted, eval in the spy frame};
